@@ -94,7 +94,16 @@ def guarded_execute(prop, sc, wall=None):
             out.bad(hang_rule, "run did not finish within the %.0fs wall watchdog" % wall)
             out.digest = ("hang",)
             return out
-        raise HarnessError("scenario hung: " + json.dumps(sc)[:400])
+        path = None
+        try:
+            body = json.dumps(sc, sort_keys=True)
+            os.makedirs(os.path.join(VERIF, "replays"), exist_ok=True)
+            path = os.path.join(VERIF, "replays", "%s-hang-%s.json" % (prop.id, hashlib.sha256(body.encode()).hexdigest()[:12]))
+            with open(path, "w") as f:
+                f.write(body)
+        except Exception:
+            pass
+        raise HarnessError("scenario hung (%s): %s" % (path, json.dumps(sc)[:300]))
     finally:
         signal.setitimer(signal.ITIMER_REAL, 0)
 
